@@ -20,9 +20,11 @@ for r in rows:
     out.append('| ' + ' | '.join(r) + ' |')
 n_c = sum(1 for r in rows if r[4] != '-')
 out += ['', '%d changes, %d reported by at least one check.' % (len(rows), n_c), '',
-        'Not reported: C16-m2 drops a tabulated wavelength that is exactly equal to `wav_min`.  The property says "inside the window", the docstring says "above this value" and the unchanged code',
-        'includes a wavelength equal to `wav_min` but excludes one equal to `wav_max`; a window end that coincides with a tabulated wavelength is therefore treated as ambiguous by C16 (DESIGN.md 1.3) and this',
-        'change stays inside that margin.']
+        'Not reported by any check (see DESIGN.md sections 4-4d and 5): C16-m2 and C16-r4m2 drop a tabulated wavelength that is exactly equal to a window end. The property says "inside the window", the',
+        'docstring says "above this value" and the unchanged code includes a wavelength equal to `wav_min` but excludes one equal to `wav_max`; a window end that coincides with a tabulated wavelength is therefore',
+        'treated as ambiguous by C16 and these changes stay inside that margin.  C04-r3m3 and C04-r4m3 need a model that is resolved at every trial distance, which cannot be produced through the package',
+        'interface (their authors assigned `Models.extended` by hand).  A change listed as not caught by the check of its own property but caught by another check breaks that other property',
+        '(e.g. a `<=` in the too-small-aperture test is reported by C13 and C02, not by the pipeline check C08).']
 os.makedirs(os.path.join(HERE, 'mutants'), exist_ok=True)
 open(os.path.join(HERE, 'mutants', 'RESULTS.md'), 'w').write('\n'.join(out) + '\n')
 print(len(rows), 'rows;', n_c, 'caught')
